@@ -126,6 +126,9 @@ func (m *Machine) callFn(th *Thread, fv Value, args []Value, site ssa.Instructio
 	if !ok || f == nil {
 		m.goPanic("runtime error: invalid memory address or nil pointer dereference (call of nil func)")
 	}
+	if f.native != nil {
+		return f.native(th)
+	}
 	if f.Built != nil {
 		return m.callBuiltin(th, f.Built, args, site)
 	}
@@ -507,6 +510,20 @@ func (m *Machine) prepareCall(fr *Frame, call *ssa.CallCommon) (Value, []Value) 
 		recv := v.(*IfaceV)
 		if recv.T == nil {
 			m.goPanic("runtime error: invalid memory address or nil pointer dereference (method call on nil interface)")
+		}
+		if nv, isNative := recv.V.(*NativeV); isNative {
+			// engine-native receiver (reflect.Type ...): evaluated by callFn through a native thunk
+			var nargs []Value
+			for _, a := range call.Args {
+				nargs = append(nargs, fr.get(a))
+			}
+			return &FuncV{native: func(th *Thread) Value {
+				r, ok := m.nativeMethod(th, nv, call.Method.Name(), nargs)
+				if !ok {
+					panic(m.unsupported("method %s on engine-native %s", call.Method.Name(), nv.Kind))
+				}
+				return r
+			}}, nil
 		}
 		f := m.lookupMethod(recv.T, call.Method)
 		if f == nil {
